@@ -9,6 +9,7 @@
       afterwards:                  the next build, undisturbed, succeeds and leaves the from-scratch outputs (C01)
     A fake command is one mutation: kills inside commands are not enumerated.  The interrupted invocation keeps running after the
     refusal (its later mutations are refused as well); what it reports or whether it panics does not matter.
+    For two scenarios the invocation AFTER the kill is killed as well, at every one of its own points (two kills in a row).
     Output: `WITNESS B-kill-C11 :: <scenario> kill after N (<last mutation>) :: <what>` and `SUMMARY B-kill-C11 cases=N disagreements=M`. */
 use crate::build::{build, clean, BuildParams};
 use crate::printer::EmptyPrinter;
@@ -260,6 +261,45 @@ fn verif_kill_points()
                             else if l.starts_with("write ") { vec![l.rsplit(" to ").next().unwrap().to_string()] }
                             else { vec![] };
                         for p in ps.iter() { if !allowed(p) { paths_bad += 1; if paths_bad <= 4 { println!("WITNESS B-kill-C09 :: {} :: ruler itself touched {:?} ({}), which is neither a declared target nor inside its own directory", sc.name, p, l); } } }
+                    }
+                }
+                /*  TWO kills in a row: the invocation that follows a kill is killed as well, at every one of its own points; the build
+                    after that must still succeed with from-scratch outputs (for the two scenarios that start from a build) */
+                if fuse.blown() && !*torn && (sc.name == "first build" || sc.name == "build; edit verse; build")
+                {
+                    let mut a2 = 0usize;
+                    loop
+                    {
+                        let mut sys2 = set_up(sc);
+                        let f1 = Fuse::new(allowance, false);
+                        let k1 = KillSystem { inner: sys2.clone(), fuse: f1.clone() };
+                        let _ = catch_unwind(AssertUnwindSafe(|| { let _ = build(k1, &mut EmptyPrinter::new(), params()); }));
+                        sys2.time_passes(1);
+                        let f2 = Fuse::new(a2, false);
+                        let k2 = KillSystem { inner: sys2.clone(), fuse: f2.clone() };
+                        let _ = catch_unwind(AssertUnwindSafe(|| { let _ = build(k2, &mut EmptyPrinter::new(), params()); }));
+                        cases += 1;
+                        let mut cs : Vec<String> = vec![];
+                        if let Some(c) = cache_ok(&sys2) { cs.push(c); }
+                        sys2.time_passes(1);
+                        match catch_unwind(AssertUnwindSafe(|| build(sys2.clone(), &mut EmptyPrinter::new(), params())))
+                        {
+                            Err(_) => cs.push("the build after two kills panics".to_string()),
+                            Ok(Err(e)) => cs.push(format!("the build after two kills fails: {}", e)),
+                            Ok(Ok(())) =>
+                            {
+                                let verse = read(&sys2, "verse.txt").unwrap(); let refrain = read(&sys2, "refrain.txt").unwrap(); let note = read(&sys2, "note.txt").unwrap();
+                                for (p, want) in [("stanza.txt", verse.clone()), ("poem.txt", format!("{}{}", verse, refrain)), ("aside.txt", note.clone()), ("copy.txt", note.clone())].iter()
+                                {
+                                    if read(&sys2, p).as_ref() != Some(want) { cs.push(format!("after two kills and a build {} holds {:?}, a from-scratch build gives {:?}", p, read(&sys2, p), want)); }
+                                }
+                                if let Some(c) = cache_ok(&sys2) { cs.push(format!("after two kills and a build: {}", c)); }
+                            },
+                        }
+                        if !cs.is_empty() { bad += 1; if bad <= 6 { println!("WITNESS B-kill-C11 :: {} kill after {} ({}), next build killed after {} ({}) :: {}", sc.name, allowance, fuse.last(), a2, f2.last(), cs.join("; ")); } }
+                        if !f2.blown() { break; }
+                        a2 += 1;
+                        if a2 > 400 { break; }
                     }
                 }
                 if !fuse.blown() { break; }
